@@ -390,6 +390,38 @@ theorem crossesLine_iff_exactly_one_end_low (ac bc c : Rat) :
     crossesLine ac bc c = (decide (ac ≤ c) != decide (bc ≤ c)) :=
   crossesLine_eq_low_xor ac bc c
 
+/-- A closed boundary path accepted by `cycleClosed` has at least two segments and ends at the
+    point (node, corner) it starts from. -/
+theorem cycleClosed_sound (path : List PathPt) (h : cycleClosed path = true) :
+    3 ≤ path.length ∧ ∃ a b, path.head? = some a ∧ path.getLast? = some b ∧
+      a.node = b.node ∧ a.ri = b.ri := by
+  unfold cycleClosed at h
+  simp only [Bool.and_eq_true, decide_eq_true_eq] at h
+  refine ⟨h.1, ?_⟩
+  cases ha : path.head? with
+  | none => rw [ha] at h; exact absurd h.2 (by simp)
+  | some a =>
+    cases hb : path.getLast? with
+    | none => rw [ha, hb] at h; exact absurd h.2 (by simp)
+    | some b =>
+      rw [ha, hb] at h
+      simp only [Bool.and_eq_true, decide_eq_true_eq] at h
+      exact ⟨a, b, rfl, rfl, h.2.1, h.2.2⟩
+
+/-- The list dump accepted by `cycleListConsistent` says: walking firstSegment → lastSegment meets
+    exactly `nSegments` segments, lastSegment ends where firstSegment starts, the `outSegment` ring
+    from the first point closes after `nSegments` steps, and the printed path has `nSegments+1`
+    points. -/
+theorem cycleListConsistent_sound (info : List Nat) (path : List PathPt)
+    (h : cycleListConsistent info path = true) :
+    ∃ n, info = [n, n, 1, 1, n, 1] ∧ path.length = n + 1 := by
+  unfold cycleListConsistent at h
+  match info, h with
+  | [nSeg, walked, reachedLast, closed, ring, ringClosed], h =>
+    simp only [Bool.and_eq_true, decide_eq_true_eq] at h
+    obtain ⟨⟨⟨⟨⟨h1, h2⟩, h3⟩, h4⟩, h5⟩, h6⟩ := h
+    exact ⟨nSeg, by rw [h1, h2, h3, h4, h5], h6⟩
+
 /-- All four state invariants at once (what the driver evaluates after every layout step). -/
 theorem stateOk_sound (ends : List (Nat × Nat)) (s : State) (h : stateOk ends s = true) :
     s.nodes.Pairwise (fun a b => ¬ OverlapBy a b) ∧
